@@ -23,4 +23,28 @@ PROPS = {
             "durability of os.WriteFile+rename of the companion against power loss is not modelled",
         ],
     ),
+    "C11": dict(
+        coq="Properties/C11.v",
+        suites=[
+            dict(name="chunk", pkg="./client/", test="TestVerifChunk", min_lines=1000),
+        ],
+        rule=("chunk: exhaustive size 1..24 x chunk 1..9 x payload 10..32 (thorough 40x12x45) for one new file, payload sizes 1..9 sampled, "
+              "every sorted disjoint record of <=3 ranges over 0..8 (thorough 0..11) x chunk {1,3,20}, plus seeded random cases of 1..3 files "
+              "(new or resumed with shuffled records; exact multiples / one more / one less of chunk and payload; values up to 2^51); "
+              "drives the real queue.Tagged, recover(), recoverFile, binnable, startBin, payload.Bin; non-trivial = a file split into several "
+              "chunks, several payloads or a payload with several parts; distinct = distinct input lines"),
+        level_text=("Proof: Coq theorems for all sizes, chunk sizes, payload sizes, missing-range sets and chunk/flush interleavings: chunks tile the file "
+                    "or exactly the missing ranges, the resumption plan is the exact complement of a disjoint record, parts tile chunks, nothing is "
+                    "dropped and no payload exceeds capacity+slack when the slack is >= 1; two refutations (zero slack, overlapping record) are "
+                    "known findings. Tied to the code by exhaustive small-scope + seeded differential runs of the real queue/recover/binner/Bin."),
+        level_note=("Trusted: Coq kernel (no axioms), extraction, OCaml/Go harness. Modelled by hand: queue.sortedFile.allocate, client.recoverFile, "
+                    "recover()'s missing computation, binnable, startBin loop, payload.Bin Add/IsFull/Split. Assumed: offsets < 2^53 (Bin.Add goes "
+                    "through float64; validated numerically, not proved), fluff = cap/10 (validated by the differential run), no int64 overflow."),
+        technique="Coq proof (fuelled recursion + invariants over chunk/flush event lists) + extracted-model differential testing",
+        assumptions=[
+            "all offsets and sizes below 2^53: payload.Bin.Add computes min() in float64; beyond 2^53 the real code cuts parts off by one (observed, outside the modelled domain)",
+            "int64(float64(cap)*0.1) = cap/10 for cap < 2^53 (validated by the differential run, not proved)",
+            "the 1 s idle flush of the binner is modelled as a nondeterministic flush event between chunks",
+        ],
+    ),
 }
